@@ -28,6 +28,9 @@ CORPUS = [
     {'name': 'a[mV] + b[volt]', 'tree': [4, [3, 6], [3, 3]], 'target': None},
     {'name': 'a[mV]*a, unevaluated, to mV**2', 'tree': [5, [3, 6], [3, 6]], 'target': {1: 2}},
     {'name': 'a**(_1 + _2) to volt**3', 'tree': [6, [3, 6], [4, Q(1, 1), Q(2, 2)]], 'target': {0: 3}},
+    {'name': '(repaired) r[radian] + k[dimensionless]', 'tree': [4, [3, 39], [3, 0]], 'target': None},
+    {'name': '(repaired) a[mV] ** _2[one]', 'tree': [6, [3, 6], Q(1, 2, 17)], 'target': None},
+    {'name': 'sin(x[deg]) + k', 'tree': [4, [7, 10, [3, 45]], [3, 0]], 'target': None},
     {'name': 'SymPy Piecewise recursion', 'target': None,
      'tree': [13, [[7, 43, Q(0, 2)], [9, 0, [4, [3, 30], [5, [0, 0, F(-1)], [3, 29]]], [4, Q(1, F(1, 2), 9), [3, 27]]]],
               [[3, 0], [11]]]},
@@ -128,7 +131,7 @@ def units_equivalent(W, U, a, b):
     if U.is_equivalent(a, b):
         return True
     (sa, da), (sb, db) = W.unit_obs(a), W.unit_obs(b)
-    keys = set(da) | set(db)
+    keys = (set(da) | set(db)) - {'radian'}       # radian is a base unit without a dimension
     return uc.close(sa, sb, 1e-9) and all(abs(da.get(k, 0) - db.get(k, 0)) < 1e-9 for k in keys)
 
 
@@ -199,7 +202,8 @@ def work(case):
         # a wrong dimension must be refused
         try:
             uin = W.unit_obs(U.evaluate_units(expr))
-            if to is not None and uin[1] != dims:
+            if to is not None and {k: v for k, v in uin[1].items() if k != 'radian'} != \
+                    {k: v for k, v in dims.items() if k != 'radian'}:
                 findings.append(('dimension', 'input has dimensions %r, converted to %r without error' % (uin[1], dims)))
         except Exception:
             pass
